@@ -114,3 +114,43 @@ def r_typed_extract(cx):
                           "the %s stored is converted (`as`) after parsing: the conversion silently changes values "
                           "the parser accepted" % v.lower(), cx.where(t["span"]))
     cx.count("R-TYPED-EXTRACT", "variants", n)
+
+
+# ---------------------------------------------------------------------------------------------------------------------
+# R-BADPARAM-ORDER (C16): a rejected value is reported under the name of its parameter
+
+@rule("R-BADPARAM-ORDER", ["C16"])
+def r_badparam_order(cx):
+    """`Error::BadParam(parameter, value)` prints "Malformed value for parameter '{0}': '{1}'". In every place where
+    ParsedParameters::new rejects a value, the first field is the key of the gamut entry being parsed (field 0 of the
+    OpParameter variant) and the second field is not - so that the message names the parameter and cites the value,
+    and not the other way round."""
+    f = cx.f.fn("op::parsed_parameters::ParsedParameters::new")
+    n = 0
+
+    def is_key(t, depth=0):
+        t = mir.strip_refs(t)
+        for _ in range(6):
+            if t[0] == "call" and isinstance(t[1], str) and t[1].rsplit("::", 1)[-1] in ("to_string", "clone", "to_owned", "deref", "into", "from", "as_ref") and t[2]:
+                t = mir.strip_refs(t[2][0])
+            elif t[0] == "proj" and t[2] == "deref":
+                t = mir.strip_refs(t[1])
+            else:
+                break
+        return t[0] == "proj" and t[2] == ("f", 0) and mir.strip_refs(t[1])[0] == "proj" and \
+            isinstance(mir.strip_refs(t[1])[2], tuple) and mir.strip_refs(t[1])[2][0] == "variant" and \
+            mir.strip_refs(t[1])[2][2] in ("Flag", "Natural", "Integer", "Real", "Series", "Text", "Texts")
+    for bb, i, s in f.all_stmts():
+        if not (s["k"] == "assign" and s["rv"]["k"] == "agg" and s["rv"].get("adt") == "Error" and s["rv"].get("vname") == "BadParam"):
+            continue
+        v = f.rvalue(s["rv"], (bb, i))
+        if v[0] != "agg" or len(v[2]) != 2:
+            continue
+        n += 1
+        ok = is_key(v[2][0]) and not is_key(v[2][1])
+        cx.ob("R-BADPARAM-ORDER", "new/badparam%d" % (n - 1), ok,
+              "BadParam(key of the gamut entry, offending value)" if ok else
+              "ParsedParameters::new builds Error::BadParam with %s: the message then names the value as the parameter and "
+              "cites the parameter as the value" % ("the two fields exchanged" if is_key(v[2][1]) else
+                                                    "a first field that is not the key of the gamut entry"), cx.where(s.get("span")))
+    cx.count("R-BADPARAM-ORDER", "rejections", n)
